@@ -39,6 +39,14 @@ Fixpoint for_down {St : Type} (fuel : nat) (i lo : nat) (body : nat -> St -> res
   | S f => if lo <? i then (s' <- body i s ;; for_down f (i - 1) lo body s') else Ok s
   end.
 
+(* list update (no-op beyond the end) *)
+Fixpoint lset {A : Type} (l : list A) (i : nat) (x : A) : list A :=
+  match l, i with
+  | [], _ => []
+  | _ :: t, O => x :: t
+  | h :: t, S j => h :: lset t j x
+  end.
+
 Section Shift.
 Variable V : Type.
 Inductive cell := Live (v : V) | Moved | Raw.
@@ -65,6 +73,8 @@ Definition obj_at (c : list cell) (i : nat) : res (option V) :=
 (* what a move leaves in its source / what a self move-assignment leaves *)
 Definition src_after (o : option V) : cell := match o with Some v => mcell (after_move v) | None => Moved end.
 Definition self_after (o : option V) : cell := match o with Some v => mcell (self_move v) | None => Moved end.
+(* the same on the level of objects: src_after o = mcell (after_o o) *)
+Definition after_o (o : option V) : option V := match o with Some v => after_move v | None => None end.
 (* array[i]: operator[] has MOMO_CHECK(index < GetCount()) *)
 Definition item_at (s : arr) (i : nat) : res (option V) :=
   if i <? cnt s then obj_at (cells s) i else Err EIndex.
@@ -198,10 +208,13 @@ Definition lives (l : list V) : list cell := map Live l.
 Definition raws (n : nat) : list cell := repeat Raw n.
 (* an array holding exactly the sequence l with r unused slots *)
 Definition arr_of (l : list V) (r : nat) : arr := mkArr (lives l ++ raws r) (length l).
+(* ... and the general form: an array of constructed objects, some of which may be moved-from (None) *)
+Definition objs (l : list (option V)) : list cell := map mcell l.
+Definition arr_ofo (l : list (option V)) (r : nat) : arr := mkArr (objs l ++ raws r) (length l).
 End Shift.
 
 Arguments Live {V} v. Arguments Moved {V}. Arguments Raw {V}.
 Arguments ArgVal {V} v. Arguments ArgRef {V} i.
 Arguments mkArr {V}. Arguments cells {V}. Arguments cnt {V}. Arguments cap {V}.
 Arguments get {V}. Arguments set {V}. Arguments lives {V}. Arguments raws {V}. Arguments arr_of {V}.
-Arguments mcell {V}.
+Arguments mcell {V}. Arguments objs {V}. Arguments arr_ofo {V}.
